@@ -990,6 +990,13 @@ func init() {
 				}
 				mk, ok := segArg.(*ssa.MakeSlice)
 				if !ok {
+					// built by append in a loop over all inputs: make([]*Segment, 0, len(segments)), one
+					// append of the type-asserted element per iteration, the loop left early only with an error
+					if segsParam != nil && appendedOnePerInput(segArg, lenOf) {
+						if dp := paramOfType(merge, dropsSliceType); dp != nil && argOfType(site.Common(), dropsSliceType) == ssa.Value(dp) {
+							okPass = true
+						}
+					}
 					continue
 				}
 				x, name, ok := lenOrCapOf(mk.Len)
@@ -1703,4 +1710,125 @@ func offsetFillerSegOK(cc *ssa.CallCommon, tableMk *ssa.MakeSlice) bool {
 		return false
 	}
 	return cc.Args[0] == x || accessPath(cc.Args[0]) == accessPath(x)
+}
+
+// appendedOnePerInput: v is the slice built as make(T, 0, len(src)) and grown
+// by exactly one append per iteration of a loop that ranges over all of src,
+// the appended value being (a type assertion of) the ranged element; the loop
+// is left early only by returning a non-nil error.
+func appendedOnePerInput(v ssa.Value, src ssa.Value) bool {
+	var appends []*ssa.Call
+	var mk *ssa.MakeSlice
+	seen := map[ssa.Value]bool{}
+	var walk func(x ssa.Value) bool
+	walk = func(x ssa.Value) bool {
+		if seen[x] {
+			return true
+		}
+		seen[x] = true
+		switch y := x.(type) {
+		case *ssa.Phi:
+			for _, e := range y.Edges {
+				if !walk(e) {
+					return false
+				}
+			}
+			return true
+		case *ssa.Call:
+			bi, ok := y.Call.Value.(*ssa.Builtin)
+			if !ok || bi.Name() != "append" {
+				return false
+			}
+			appends = append(appends, y)
+			return walk(y.Call.Args[0])
+		case *ssa.MakeSlice:
+			if mk != nil && mk != y {
+				return false
+			}
+			mk = y
+			return true
+		}
+		return false
+	}
+	if !walk(v) || mk == nil || len(appends) != 1 {
+		return false
+	}
+	if k, ok := constInt(mk.Len); !ok || k != 0 {
+		return false
+	}
+	if x, name, ok := lenOrCapOf(mk.Cap); !ok || name != "len" || x != src {
+		return false
+	}
+	ap := appends[0]
+	// the loop that holds the append ranges over src
+	var hdr *ssa.BasicBlock
+	for h := ap.Block(); h != nil; h = h.Idom() {
+		if isLoopHeader(h) && loopBody(h)[ap.Block()] {
+			hdr = h
+			break
+		}
+	}
+	if hdr == nil {
+		return false
+	}
+	ifi, ok := hdr.Instrs[len(hdr.Instrs)-1].(*ssa.If)
+	if !ok {
+		return false
+	}
+	bin, ok := ifi.Cond.(*ssa.BinOp)
+	if !ok || bin.Op != token.LSS || !inductionFromZero(bin.X, hdr) {
+		return false
+	}
+	if x, name, ok := lenOrCapOf(bin.Y); !ok || name != "len" || x != src {
+		return false
+	}
+	// what is appended: the ranged element, possibly type-asserted
+	vals := varargValues(ap.Call.Args[1])
+	if len(vals) != 1 {
+		return false
+	}
+	el := vals[0]
+	if ex, ok := el.(*ssa.Extract); ok {
+		el = ex.Tuple
+	}
+	if ta, ok := el.(*ssa.TypeAssert); ok {
+		el = ta.X
+	}
+	ld, ok := el.(*ssa.UnOp)
+	if !ok || ld.Op != token.MUL {
+		return false
+	}
+	ia, ok := ld.X.(*ssa.IndexAddr)
+	if !ok || ia.X != src || ia.Index != bin.X {
+		return false
+	}
+	// every path through one iteration appends once, or leaves with an error
+	body := loopBody(hdr)
+	paths, complete := iterPaths(hdr, hdr.Succs[0], body, 500)
+	if !complete {
+		return false
+	}
+	for _, p := range paths {
+		if p.exit {
+			last := p.blocks[len(p.blocks)-1]
+			if _, isPanic := last.Instrs[len(last.Instrs)-1].(*ssa.Panic); isPanic {
+				continue
+			}
+			ret, ok := last.Instrs[len(last.Instrs)-1].(*ssa.Return)
+			if !ok || len(ret.Results) == 0 || isNilConst(resolveLoad(ret.Results[len(ret.Results)-1])) {
+				return false
+			}
+			continue
+		}
+		n := 0
+		for _, b := range p.blocks {
+			if b == ap.Block() {
+				n++
+			}
+		}
+		if n != 1 {
+			return false
+		}
+	}
+	return true
 }
